@@ -1,4 +1,5 @@
 import BufProofs.Lemmas.FilterLemmas
+import BufProofs.Lemmas.FilterRewriteLemmas
 /-
   C12 — Type filtering yields a self-contained, minimal, otherwise unchanged image.
   Model: BufModel/Filter.lean (closure = task machine `run`, rewrite = `remapFile`).
@@ -13,16 +14,31 @@ import BufProofs.Lemmas.FilterLemmas
     * fuel_monotone                   the closure's answer does not depend on the fuel once it has one
     * *_counterexample                the pre-fix behaviours (9a, 9b, 9f) and the four families that are
                                       still as coded (recorded known findings)
+    * fuel_suffices / defaultFuel_suffices_partial / defaultFuel_insufficient_counterexample
+                                      a computable fuel bound that always suffices (termination potential);
+                                      `defaultFuel` suffices exactly when it dominates that bound, and does
+                                      NOT for e.g. a 300-value enum (model defect, see the counterexample)
+    * closure_closed                  THE WORKLIST INVARIANT of the traversal, formalised
+                                      (FilterClosure.run_closed) and lifted through all phases of `closure`
+    * filter_links_partial / filter_links_imports_partial
+                                      closure level: every reference of a visited element is visited or
+                                      excluded, its import is recorded, parents have modes; output level:
+                                      every needed import is listed in the rewritten dependency list
+    * filter_keeps_includes_partial / filter_keeps_includes
+                                      an included non-extension element ends `explicit`; an included
+                                      message / enum / service is PRESENT in the output of a successful
+                                      filter (well-formed index)
+    * comments_follow_messages / marks_stay_below
+                                      comments_follow_elements for message lists at any nesting depth
   NOT proved (held by the correspondence on every run and judged by the implementation oracle):
-    filter_links, filter_keeps_includes, filter_minimal, filter_idempotent, filter_total — they need
-    the worklist invariant of the traversal ("every requirement of a visited element is satisfied or
-    on the stack") which is not formalised; that `defaultFuel` suffices is likewise only checked
-    (a `fuel` error would be a protocol disagreement).  The message-level part of
-    survivors_unchanged / comments_follow_elements (nested messages, namespace-only messages) is
-    covered by the correspondence of every source location and by the oracle.
+    `linksB out` itself (needs presence of every referenced element — proved here only for includes —
+    plus the hypotheses excluding the three known-finding families), filter_minimal,
+    filter_idempotent (not statable: the model has no OFile → Image), filter_total (needs a
+    "every task on the stack resolves" invariant), the message-level part of survivors_unchanged.
+    See handoff/C12-proofs.md.
 -/
 namespace BufProofs.C12
-open BufModel.Filter BufProofs.FilterLemmas
+open BufModel.Filter BufProofs.FilterLemmas BufProofs.FilterClosure BufProofs.FilterRewrite
 
 /-! ### excludes -/
 
@@ -244,5 +260,196 @@ example : (match closure cfgFixed imgRpc { includes := [], excludes := [11] } (d
 -- non-vacuity of comments_follow_elements / remapSlice_index: drop two adjacent elements
 example : fixPath (sliceMarks [4] [true, false, false, true] 0 0) [4] [3] = some ([1], false) ∧
     fixPath (sliceMarks [4] [true, false, false, true] 0 0) [4] [2] = none := by decide
+
+/-! ### fuel -/
+
+/-- `fuelBound img` (= 1 + the sum over the index of the expansion and enclosing costs, see
+    `FilterClosure.eCost/cCost`) always suffices: with at least that much fuel neither the closure
+    nor the filter ever answers `fuel`, for every cfg, image and filter.  Proof: the potential
+    `wTasks stack + potSum state` strictly decreases with every machine step (`step_cost`). -/
+theorem fuel_suffices (cfg : Cfg) (img : Image) (o : Opts) (fuel : Nat) (h : fuelBound img ≤ fuel) :
+    closure cfg img o fuel ≠ .error .fuel ∧ filterWith cfg img o fuel ≠ .error .fuel :=
+  ⟨closure_ne_fuel cfg img o fuel h, filterWith_ne_fuel cfg img o fuel h⟩
+
+/-- `defaultFuel` suffices for every image whose `fuelBound` it dominates (a computable condition
+    on the image alone).  Partial: the condition cannot be dropped — `defaultFuel` does not count
+    option lists (enum values, extension ranges, oneofs, `Any` payloads), see
+    `defaultFuel_insufficient_counterexample`. -/
+theorem defaultFuel_suffices_partial (img : Image) (o : Opts) (h : fuelBound img ≤ defaultFuel img) :
+    filter img o ≠ .error .fuel ∧ filterOld img o ≠ .error .fuel :=
+  ⟨filterWith_ne_fuel _ img o _ h, filterWith_ne_fuel _ img o _ h⟩
+
+-- non-vacuity: the condition holds on the witness images of this file
+example : fuelBound imgRpc ≤ defaultFuel imgRpc ∧ fuelBound imgImport ≤ defaultFuel imgImport ∧
+    fuelBound imgMap ≤ defaultFuel imgMap ∧ fuelBound imgOneof ≤ defaultFuel imgOneof := by decide
+
+/-- one file with one enum of `n` values (no options anywhere) -/
+def imgBigEnum (n : Nat) : Image :=
+  { files := [
+      { id := 1, pkg := 10, isImport := false, deps := [], types := [11], msgs := [],
+        enums := [Enum.mk 11 (List.replicate n []) []], svcs := [], exts := [], opts := [], locs := [] }],
+    pkgs := [0, 10] }
+
+set_option maxRecDepth 100000 in
+/-- MODEL defect (not of buf): `defaultFuel` is too small for an enum with 300 values — the model
+    answers `fuel` where the implementation succeeds; with `fuelBound` it succeeds. -/
+theorem defaultFuel_insufficient_counterexample :
+    errOf (filter (imgBigEnum 300) { includes := [11], excludes := [] }) = some .fuel ∧
+    errOf (filterWith cfgFixed (imgBigEnum 300) { includes := [11], excludes := [] } (fuelBound (imgBigEnum 300))) = none := by
+  decide
+
+/-! ### the worklist invariant and what follows from it -/
+
+/-- **The worklist invariant, closure level** (`FilterClosure.run_closed` lifted through all
+    phases).  For the current code (`svcMarksInput = false`) the final closure state is `Closed`:
+    for every indexed key `k ↦ i`
+      * if `k` has a non-excluded mode, its parent has a mode (`PostEncl`), and
+      * if `k` is visited (implicit/explicit), every sub-task its expansion pushed has its
+        post-condition (`Reqs`): field / extension / method types, extendees, option extensions and
+        Any payloads are visited-or-excluded with the import `file(k) → file(target)` recorded,
+        the file of `k` is in `seen`, custom options explored, oneofs with no live member excluded.
+    Nothing is assumed about the image; cycles in the type graph are covered. -/
+theorem closure_closed (cfg : Cfg) (hcfg : cfg.svcMarksInput = false) (img : Image) (o : Opts) (fuel : Nat)
+    (st : St) (h : closure cfg img o fuel = .ok st) : Closed ⟨cfg, buildIndex img, o.customOpts⟩ st := by
+  obtain ⟨_, _, _, hg⟩ := closure_good cfg hcfg img o fuel st h
+  exact hg.1
+
+/-- **filter_links, closure level** (partial: the rewrite-level statement `linksB out` is not
+    derived).  In the final closure of the current code, for every visited message `M` (mode
+    implicit or explicit) and every field `f` of `M` with a message/enum type `t`:
+    either `t` is excluded (the rewrite then drops `f`: `rewrite_drops_field_of_type`), or `t` is
+    itself visited-or-excluded *and*, unless it ended excluded, the file of `t` is in `seen` and
+    is either `M`'s own file or the import edge `file(M) → file(t)` is recorded (which is what
+    `remapDeps` lists).  Likewise both types of a visited method, and the extendee and type of a
+    visited extension; and every key with a non-excluded mode has a parent with a mode.
+    No hypothesis on the image or the filter is needed at this level: the three known-finding
+    families break `linksB` only in the rewrite (map entry loses its value field, oneof indexes
+    are not renumbered) or through `hasType` of *unvisited* keys in exclude-only filters. -/
+theorem filter_links_partial (cfg : Cfg) (hcfg : cfg.svcMarksInput = false) (img : Image) (o : Opts) (fuel : Nat)
+    (st : St) (h : closure cfg img o fuel = .ok st) (k : Key) (i : Info)
+    (hi : (buildIndex img).find k = some i) :
+    let c : Ctx := ⟨cfg, buildIndex img, o.customOpts⟩
+    (1 ≤ rk st k → rk st k ≤ 3 → ∀ p, i.parent = some p → 1 ≤ rk st p) ∧
+    (2 ≤ rk st k → rk st k ≤ 3 →
+      i.file ∈ st.seen ∧
+      (i.kind = .msg → ∀ f ∈ i.fields, ∀ t, f.ty = some t →
+        rk st (.el t) = 4 ∨ PostAdd c st (.el t) (some i.file)) ∧
+      (i.kind = .method → PostAdd c st (.el i.input) (some i.file) ∧ PostAdd c st (.el i.output) (some i.file)) ∧
+      (i.kind = .ext → ∀ f e, i.fld = some f → f.extendee = some e →
+        PostAdd c st (.el e) (some i.file) ∧ ∀ t, f.ty = some t → PostAdd c st (.el t) (some i.file))) := by
+  intro c
+  have hc := closure_closed cfg hcfg img o fuel st h k i hi
+  refine ⟨fun h1 h3 => hc.1 h1 h3, fun h2 h3 => ?_⟩
+  have hr := hc.2 h2 h3
+  refine ⟨?_, ?_, ?_, ?_⟩
+  · exact (hr (.imp none i.file) (by unfold reqTasks postTasks; simp)).1
+  · intro hk f hf t ht
+    have := hr (.field f i.file) (by unfold reqTasks; rw [hk]; simp only [List.mem_append, List.mem_map]; exact Or.inl (Or.inl (Or.inl ⟨f, hf, rfl⟩)))
+    rcases this with ⟨t', ht', h4⟩ | ⟨h1, _⟩
+    · rw [ht] at ht'; cases ht'; exact Or.inl h4
+    · exact Or.inr (h1 t ht)
+  · intro hk
+    exact ⟨hr (.add (.el i.input) (some i.file) false) (by unfold reqTasks; rw [hk]; simp),
+      hr (.add (.el i.output) (some i.file) false) (by unfold reqTasks; rw [hk]; simp)⟩
+  · intro hk f e hf he
+    refine ⟨hr (.add (.el e) (some i.file) false) (by unfold reqTasks; simp [hk, hf, he]), ?_⟩
+    intro t ht
+    exact hr (.add (.el t) (some i.file) false) (by unfold reqTasks; simp [hk, hf, he, ht])
+
+-- non-vacuity: A(11){ D1 x } of imgImport is visited, D1(21) is visited, the edge 1 → 2 is recorded
+example : (match closure cfgFixed imgImport { includes := [11], excludes := [] } (defaultFuel imgImport) with
+    | .ok st => some (st.get (.el 11), st.get (.el 21), st.edges, st.seen) | .error _ => none) =
+    some (some .explicit, some .explicit, [(1, 2)], [1, 2]) := by decide
+
+/-- **every needed import is listed** (output level).  For a successful filter of the current code,
+    an output file `of`, a visited message `M` of that file and a field of `M` whose type `t` is not
+    excluded (so the rewrite keeps the field): the file that declares `t` is `of` itself or is
+    listed in `of.deps`.  No hypothesis on image or filter.  (That the listed file is itself in
+    the output is enforced by `rewrite`'s `internal` check; that `t` is *present* there needs the
+    hypotheses of `filter_keeps_includes` and is proved only for includes.) -/
+theorem filter_links_imports_partial (img : Image) (o : Opts) (fuel : Nat) (st : St) (out : List OFile)
+    (hcl : closure cfgFixed img o fuel = .ok st) (hrw : rewrite cfgFixed st o.includes.isEmpty img = .ok out)
+    (of : OFile) (hof : of ∈ out) (k : Key) (i : Info) (hi : (buildIndex img).find k = some i)
+    (h2 : 2 ≤ rk st k) (h3 : rk st k ≤ 3) (hfile : i.file = of.id) (hk : i.kind = .msg)
+    (f : Field) (hf : f ∈ i.fields) (t : Id) (ht : f.ty = some t) (hne : rk st (.el t) ≠ 4)
+    (it : Info) (hit : (buildIndex img).find (.el t) = some it) :
+    it.file = of.id ∨ it.file ∈ of.deps := by
+  obtain ⟨f0, _, hr⟩ := rewrite_origin cfgFixed rfl st _ img out hrw of hof
+  obtain ⟨hid, hdeps⟩ := remapFile_deps _ f0 of hr
+  have hl := (filter_links_partial cfgFixed rfl img o fuel st hcl k i hi).2 h2 h3
+  rcases hl.2.1 hk f hf t ht with h4 | hp
+  · exact absurd h4 hne
+  · obtain ⟨_, h4 | he⟩ := hp it hit
+    · exact absurd h4 hne
+    · rcases he.2 i.file rfl with e | e
+      · left; rw [← e, hfile]
+      · right
+        rw [hdeps]
+        rw [hfile, hid] at e
+        exact remapDeps_lists st f0 it.file e
+
+/-! ### includes are kept -/
+
+/-- **filter_keeps_includes, closure level**: an include naming any indexed non-extension element
+    (message, enum, service, method) ends `explicit` in the closure of the current code — later
+    includes, the include-everything default and addExtensions never demote it.  (Extensions are
+    excepted as coded: an included extension whose value type is excluded is silently dropped —
+    known finding `included-extension-silently-dropped`.) -/
+theorem filter_keeps_includes_partial (cfg : Cfg) (hcfg : cfg.svcMarksInput = false) (img : Image) (o : Opts)
+    (fuel : Nat) (st : St) (h : closure cfg img o fuel = .ok st) (n : Id) (hn : n ∈ o.includes)
+    (i : Info) (hi : (buildIndex img).find (.el n) = some i) (hne : i.fld = none) :
+    st.get (.el n) = some .explicit :=
+  closure_keeps_includes cfg hcfg img o fuel st h n hn i hi hne
+
+/-- **filter_keeps_includes** (output level, messages / enums / services): if the filter of the
+    current code succeeds on an image whose index is well-formed (`WFIdx`: no two indexed elements
+    share an id; decidable, see `wfIdxB`), every include that names a message, an enum or a service
+    is present in the output, in the output file with the id of its own file.  Any filter: other
+    includes, excludes (an exclude of the element or of an ancestor makes the filter fail with
+    `conflict` instead), option flags; any fuel.  Methods and packages are not covered here. -/
+theorem filter_keeps_includes (img : Image) (o : Opts) (fuel : Nat) (out : List OFile)
+    (h : filterWith cfgFixed img o fuel = .ok out) (hwf : WFIdx (buildIndex img))
+    (n : Id) (hn : n ∈ o.includes) (i : Info) (hi : (buildIndex img).find (.el n) = some i)
+    (hkind : i.kind = .msg ∨ i.kind = .enum ∨ i.kind = .svc) (hfld : i.fld = none) :
+    ∃ of ∈ out, of.id = i.file ∧ n ∈ (presentFile of).map (·.id) :=
+  filterWith_keeps_include img o fuel out h hwf n hn i hi hfld
+    (by rcases hkind with h | h | h <;> rw [h] <;> simp) (by rcases hkind with h | h | h <;> rw [h] <;> simp)
+
+-- non-vacuity: the hypotheses hold for imgImport with include A(11) and the filter succeeds
+example : wfIdxB (buildIndex imgImport) = true ∧
+    (((buildIndex imgImport).find (.el 11)).map (fun i => (i.kind, i.fld))) = some (.msg, none) ∧
+    idsOf (filter imgImport { includes := [11], excludes := [12] }) = some [(2, [21]), (1, [11])] := by decide
+
+-- non-vacuity of filter_links_imports_partial: file 1 (A{ D1 x }) lists file 2 (D1)
+example : (match filter imgImport { includes := [11], excludes := [] } with
+    | .ok o => some (o.map fun f => (f.id, f.deps)) | .error _ => none) = some [(2, []), (1, [2])] := by decide
+
+/-! ### source paths of nested message lists -/
+
+/-- **comments_follow_elements for message lists at any nesting depth** (top-level messages of a
+    file, `path = [4]`, or nested messages of a message at `p`, `path = p ++ [3]`), with all the
+    marks of the nested declarations present in the trie: the location `path ++ [i]` of message `i`
+    is deleted exactly when the message is dropped (`msgFlags` = `has` of its id) and otherwise
+    becomes `path ++ [newIdx i]` (the number of kept messages before it); its comments are blanked
+    exactly when the trie has a `noComment` mark there (namespace-only message that was cleared).
+    Any two adjacent dropped messages, dropped prefixes/suffixes, arbitrary nesting below. -/
+theorem comments_follow_messages (c : RCtx) (path : List Nat) (ms : List Msg) (i : Nat)
+    (hi : i < (msgFlags c ms).length) :
+    fixPath (remapMsgs c path ms 0 0).2 path [i] =
+      if (msgFlags c ms)[i] = false then none
+      else some ([newIdx (msgFlags c ms) i 0], noCommentAt (remapMsgs c path ms 0 0).2 (path ++ [i])) :=
+  fixPath_remapMsgs c path ms i hi
+
+/-- the marks a message at `p` leaves are a `noComment` at `p` or lie strictly below `p`; so they
+    never disturb the source paths of its siblings or ancestors. -/
+theorem marks_stay_below (c : RCtx) (p : List Nat) (m : Msg) : Below p (remapMsg c p m).2 :=
+  below_remapMsg c p m
+
+-- non-vacuity: nested messages [13 dropped, 14 kept (with a dropped nested 15 of its own)] below [4,0,3]
+example :
+    let c : RCtx := ⟨{ modes := [(.el 14, .explicit)] }, false, true⟩
+    let ms := [m0 13, Msg.mk 14 [] [] [] [m0 15] [] [] false false []]
+    fixPath (remapMsgs c [4, 0, 3] ms 0 0).2 [4, 0, 3] [1] = some ([0], false) ∧
+    fixPath (remapMsgs c [4, 0, 3] ms 0 0).2 [4, 0, 3] [0] = none ∧ msgFlags c ms = [false, true] := by decide
 
 end BufProofs.C12
